@@ -377,3 +377,11 @@ def check(cx):
                            "%s can emit its alternative on a path where the predicates collected in `%s` were neither used nor "
                            "known to be empty (they are dropped, or only used inside a conditionally executed closure): the "
                            "rewritten plan silently loses those conjuncts" % (g.id, nm.get(x, "?")))
+
+    # ---- C06.6 / C06.7 (constructs shared with C13.3 and C07.6) ----------------------------------------------------
+    from . import c13, c07
+    cx.include(c13, {"C13.3"}, "C06.6", "shared with C13.3: VACUUM sweeps index trees like table trees (no filter on the relation "
+               "kind); an index that keeps the mark of a rolled-back delete after the aborted ids are forgotten hides a row "
+               "that the table still shows", floor=5)
+    cx.include(c07, {"C07.6"}, "C06.7", "shared with C07.6: every builder of index keys walks the declared indexed-column list, so "
+               "that the entry DML stores is the entry a probe or scan looks for", floor=3)
